@@ -5,6 +5,8 @@
 //! `<dir>/<property>.<i>.impl` (what the real lace code did on the same case), plus
 //! `<dir>/<property>.<i>.stats` (JSON: distribution of what was generated).
 mod cap;
+mod cli;
+mod dbg;
 mod edit;
 mod prng;
 mod progs;
@@ -88,6 +90,15 @@ fn main() {
     match o.prop.as_str() {
         "C02" => vm::run(&o),
         "C03" => run::run(&o),
+        "C06" => cli::run_c06(&o),
+        "C09" => dbg::run_c09(&o),
+        "C10" => dbg::run_prop(&o, "D10"),
+        "C11" => dbg::run_prop(&o, "D11"),
+        "C12" => dbg::run_prop(&o, "D12"),
+        "C13" => dbg::run_prop(&o, "D13"),
+        "C16" => dbg::run_prop(&o, "D16"),
+        "C07" => cli::run_c07(&o),
+        "C08" => cli::run_c08(&o),
         "C20" => edit::run(&o),
         other => {
             eprintln!("unknown property {other}");
